@@ -719,6 +719,36 @@ def run_handmade(run, case: dict, engine: str, sample: bool = False) -> None:
         run.count('lazy_shuffled_loads')
     except Exception as exc:
         ctx.bad('lazy-load-raises', f'loading lazy frames after the stream was moved raised {type(exc).__name__}: {exc}', phase='lazy-shuffled-load')
+    # history: read (lazy) -> a copy_from() that is refused (wrong buffer length, frame of another size), or that copies
+    # the frame onto itself -> the frame still holds the file's pixels
+    try:
+        lz = vm.VTF.read(io.BytesIO(data))
+        how_used = set()
+        for n_k, k in enumerate(list(lz._frames)):
+            f = lz._frames[k]
+            how = (n_k + case['w'] + case['frames']) % 4
+            how_used.add(how)
+            try:
+                if how == 0:
+                    f.copy_from(f)
+                elif how == 1:
+                    f.copy_from(bytes(4 * f.width * f.height + 1))
+                    ctx.bad('copy-from-accepts-wrong-size', 'copy_from() accepted a buffer one byte too long', phase='lazy-refused-copy')
+                elif how == 2:
+                    f.copy_from(vm.Frame(f.width + 1, f.height))
+                    ctx.bad('copy-from-accepts-wrong-size', 'copy_from() accepted a frame of another size', phase='lazy-refused-copy')
+            except ValueError:
+                pass
+        for (fr, sl, lv), px in images.items():
+            f = lz._frames.get((fr, sides[sl], lv))
+            if f is None or (f.width, f.height) != G.expected_dims(w, h, lv):
+                continue
+            compare_pixels(ctx, fmt, px, frame_bytes(f), f.width, [fr, dkey_json(sides[sl]), lv], 'lazy-refused-copy',
+                           'pixels of a lazily loaded frame after a refused copy_from() / a copy onto itself')
+        if how_used >= {0, 1}:
+            run.count('lazy_frames_after_refused_or_self_copy')
+    except Exception as exc:
+        ctx.bad('lazy-load-raises', f'a refused copy_from() / self copy on lazy frames raised {type(exc).__name__}: {exc}', phase='lazy-refused-copy')
     # history: read -> save straight away (no load(), no pixel access: every frame is still lazy) -> read.
     # The stored images of EVERY level, custom mipmaps included, must come through unchanged.
     try:
@@ -836,7 +866,7 @@ def main(run, shard=(0, 1)) -> None:
     probe.report(run)
     probe.check_reached(run)
     run.extra['formats'] = list(G.WRITABLE)
-    run.require('lazy_shuffled_loads', 'saves', 'reads', 'real_file_passes', 'repeated_saves', 'legacy_version_with_resources', 'resaves', 'frames_compared', 'thumbnails_compared', 'generated_mipmaps_checked', 'nearest_filter_regenerations',
+    run.require('lazy_shuffled_loads', 'lazy_frames_after_refused_or_self_copy', 'saves', 'reads', 'real_file_passes', 'repeated_saves', 'legacy_version_with_resources', 'resaves', 'frames_compared', 'thumbnails_compared', 'generated_mipmaps_checked', 'nearest_filter_regenerations',
                 'index_probes', 'resource_sets_compared', 'sheets_compared', 'one_wide_textures', 'cubemaps_with_sphere',
                 'cubemaps_without_sphere', 'volumetric_textures', 'reduced_precision_main_format', 'handmade_files_read',
                 'sweep_images')
